@@ -90,6 +90,10 @@ func c04Threads(s string) [][]c03Query {
 		return [][]c03Query{{q(model.And(a, model.Not(b), model.Not(model.Eq("b", "nope"))))}, {q(model.Or(model.Not(b), a, model.Eq("a", "zz")))}}
 	case "S2": // hit after miss, eviction in flight
 		return [][]c03Query{{q(model.And(a, b)), q(a)}, {q(b), q(model.And(a, b))}}
+	case "S7": // both threads: the same failing compound expression (a column that occurs in no row below two operators), then
+		// a grouped query; the two grouped queries use ONE group-by slice (a caller may share what Execute only reads)
+		bad := model.And(a, model.Or(model.Eq("nosuch", "1"), b))
+		return [][]c03Query{{q(bad), {Expr: model.Or(a, b), GroupBy: []string{"b", "c", "b"}}}, {q(bad), {Expr: model.Not(a), GroupBy: []string{"b", "c", "b"}}}}
 	case "S3": // two Executes and a schema read
 		return [][]c03Query{{q(model.Not(model.Or(a, model.Eq("c", "absent"))))}, {{Expr: model.Or(a, c, model.Eq("b", "absent")), GroupBy: []string{"b"}}}, nil}
 	}
@@ -155,11 +159,16 @@ func c04Scenario(w *c04World, p c04Params, outcome *string) vsched.Scenario {
 	want := make([][]string, len(al))
 	for t, qs := range al {
 		for _, q := range qs {
-			sel, _ := w.data.Eval(q.Expr)
+			sel, err := w.data.Eval(q.Expr)
+			if err != nil {
+				want[t] = append(want[t], "error")
+				continue
+			}
 			g, _ := w.data.GroupBy(sel, q.GroupBy)
 			want[t] = append(want[t], fmt.Sprintf("count=%d groups=%s nil=%v", sel.Count(), groupsString(g), g == nil))
 		}
 	}
+	sharedGB := []string{"b", "c", "b"}
 	wantSchema := w.data.Schema()
 	return func() ([]func(), func(*vsched.Result) string) {
 		cache := w.freshCache(p.Cache)
@@ -177,7 +186,11 @@ func c04Scenario(w *c04World, p c04Params, outcome *string) vsched.Scenario {
 			}
 			bodies = append(bodies, func() {
 				for _, q := range qs {
-					res, err := w.idx.Execute(&updog.Query{Expr: q.Expr.Updog(), GroupBy: append([]string{}, q.GroupBy...)})
+					gb := append([]string{}, q.GroupBy...)
+					if p.Scenario == "S7" && len(gb) > 0 {
+						gb = sharedGB
+					}
+					res, err := w.idx.Execute(&updog.Query{Expr: q.Expr.Updog(), GroupBy: gb})
 					got[t] = append(got[t], renderResult(res, err))
 				}
 			})
@@ -194,6 +207,9 @@ func c04Scenario(w *c04World, p c04Params, outcome *string) vsched.Scenario {
 				if !reflect.DeepEqual(s, wantSchema) {
 					return fmt.Sprintf("GetSchema returned %v", s)
 				}
+			}
+			if fmt.Sprint(sharedGB) != "[b c b]" {
+				return fmt.Sprintf("the group-by list passed to Execute was changed to %v", sharedGB)
 			}
 			if m := lruInvariant(cache); m != "" {
 				return "LRU cache corrupted after the run: " + m
@@ -569,9 +585,14 @@ func c04Run(ctx *rt.Ctx) []*rt.Violation {
 		b, _ := json.Marshal(e3Job{Scenario: p.Scenario, Params: pb, Bound: bound})
 		jobs = append(jobs, rt.Job{Name: fmt.Sprintf("%s-%v-%s-b%d", p.Scenario, p.Preload, p.Cache, bound), NShards: 1, Args: b})
 	}
-	bounds := map[string]int{"S1": 2, "S2": 2, "S3": 2, "S4": 3, "S4b": 2, "S5": 2, "S5b": 1, "S6": 1}
+	bounds := map[string]int{"S1": 2, "S2": 2, "S3": 2, "S4": 3, "S4b": 2, "S5": 2, "S5b": 1, "S6": 1, "S7": 1}
 	if ctx.Thorough() {
-		bounds = map[string]int{"S1": 4, "S2": 3, "S3": 3, "S4": 5, "S4b": 3, "S5": 3, "S5b": 2, "S6": 2}
+		bounds = map[string]int{"S1": 4, "S2": 3, "S3": 3, "S4": 5, "S4b": 3, "S5": 3, "S5b": 2, "S6": 2, "S7": 2}
+	}
+	for _, pre := range []bool{false, true} {
+		for _, c := range []string{"ample", "none"} {
+			add(c04Params{Scenario: "S7", Preload: pre, Cache: c}, bounds["S7"])
+		}
 	}
 	for _, s := range []string{"S5", "S5b", "S6"} {
 		for _, pre := range []bool{false, true} {
